@@ -1,1 +1,3 @@
+import PahoProofs.Properties.C11
 import PahoProofs.Properties.C14
+import PahoProofs.Properties.C19
